@@ -1,0 +1,21 @@
+//go:build verif
+
+package unixutil
+
+// Contracts for the verification machinery in /verif (not compiled without the tag "verif").
+
+//@ func TimevalFromNsec
+//@   ensures normalised: 0 <= result.Usec && result.Usec < 1000000000
+//@   ensures exact: mathint(result.Sec)*1000000000+mathint(result.Usec) == mathint(nsec)
+
+// The kernel accepts |freq| <= 32768000 scaled ppm (500 ppm); the conversions are specified on a much wider range.
+//@ func ScaledPPMFromFreq
+//@   requires -1.0 <= freq && freq <= 1.0
+//@   ensures def: result == int64(freq*65536000000.0)
+
+//@ func FreqFromScaledPPM
+//@   ensures def: result == float64(scaledPPM)/65536000000.0
+
+//@ lemma scaledPPMRoundTrip(x int64)
+//@   requires -2199023255552 <= x && x <= 2199023255552
+//@   ensures ScaledPPMFromFreq(FreqFromScaledPPM(x))-x <= 1 && x-ScaledPPMFromFreq(FreqFromScaledPPM(x)) <= 1
